@@ -267,6 +267,27 @@ func Run(c Case) (v *vcore.Violation, stt Stats) {
 				window, tries, st.Sock(kk.peer).Addr, kk.seq, 2*window+30*time.Millisecond), stt
 		}
 	}
+	// every transaction of the history (and of the probes) has been released by now, whatever the server keeps of released
+	// transactions it has: requests that are never answered, each sent twice - the second copy is ignored as the first was
+	time.Sleep(2*window + 30*time.Millisecond)
+	for j, b := range [][]byte{
+		stack.Marshal(message.NewPFDManagementRequest(0x5001)),
+		stack.Marshal(message.NewAssociationUpdateRequest(0x5002, ie.NewNodeID(st.NodeID(1), "", ""))),
+		stack.Marshal(message.NewAssociationReleaseRequest(0x5003, ie.NewNodeID(st.NodeID(1), "", ""))),
+	} {
+		for copyNo := 1; copyNo <= 2; copyNo++ {
+			o := r.SendRaw(1, b)
+			if o.Dead != nil {
+				return vcore.Violatef(o.Dead.Key, "never-answered request after the window: UPF fatal exit"), stt
+			}
+			for sock, ds := range o.Rx {
+				if len(ds) != 0 {
+					return vcore.Violatef("dup-answered-without-original", "retention window %v, after every earlier transaction had been released: copy %d of never-answered request %d (%x) made the UPF send %d datagram(s) to socket %d, the first %x",
+						window, copyNo, j, b, len(ds), sock, ds[0].B), stt
+				}
+			}
+		}
+	}
 	return nil, stt
 }
 
@@ -548,6 +569,74 @@ func runLost(c LostCase) (v *vcore.Violation, arranged bool) {
 			answer = got[0].B
 		} else if string(answer) != string(got[0].B) {
 			return vcore.Violatef("dup-answer-differs", "retransmission %d answered %x, the one before %x", i, got[0].B, answer), true
+		}
+	}
+	// the answer the SMF finally got is true: the UPF is in the state it describes
+	modAnswer := func(o *stack.Obs) *message.SessionModificationResponse {
+		for _, m := range o.Msgs[0] {
+			if mr, ok := m.(*message.SessionModificationResponse); ok {
+				return mr
+			}
+		}
+		return nil
+	}
+	upd := func(id uint32) []stack.RuleOp {
+		return []stack.RuleOp{{Verb: "update", Kind: "FAR", ID: id, Action: 1, HasAction: true}}
+	}
+	switch c.Kind {
+	case "est":
+		m, _ := message.Parse(answer)
+		er, ok := m.(*message.SessionEstablishmentResponse)
+		if !ok || stack.Cause(er) != 1 || er.UPFSEID == nil {
+			return nil, true // not accepted: nothing was promised
+		}
+		f, ferr := er.UPFSEID.FSEID()
+		if ferr != nil {
+			return nil, true
+		}
+		if f.SEID == r.Sess[0].UP || f.SEID == 0 {
+			return vcore.Violatef("est-seid-live", "the Establishment Response that reached the SMF through a retransmission issues UP SEID %#x, which the prefix session holds", f.SEID), true
+		}
+		o := r.Step(stack.Op{Kind: "est", Peer: 0, Node: 0, Sess: -1, CP: 0x43, Rules: far})
+		if o.Dead != nil {
+			return vcore.Violatef(o.Dead.Key, "establishment after the lost answer: UPF fatal exit"), true
+		}
+		if o.NewSess >= 0 && r.Sess[o.NewSess].Known && r.Sess[o.NewSess].UP == f.SEID {
+			return vcore.Violatef("est-seid-live", "UP SEID %#x was issued by an Establishment Response that could be sent only on retransmission of the request (CP SEID 0x42), and issued again to the next establishment (CP SEID 0x43)", f.SEID), true
+		}
+		o = r.Step(stack.Op{Kind: "mod", Peer: 0, Sess: -1, Raw: f.SEID, Rules: upd(1)})
+		if o.Dead != nil {
+			return vcore.Violatef(o.Dead.Key, "modification after the lost answer: UPF fatal exit"), true
+		}
+		mr := modAnswer(o)
+		if mr == nil || stack.Cause(mr) != 1 || mr.SEID() != 0x42 {
+			cause, seid := uint8(0), uint64(0)
+			if mr != nil {
+				cause, seid = stack.Cause(mr), mr.SEID()
+			}
+			return vcore.Violatef("seid-misresolved", "UP SEID %#x was issued to the session with CP SEID 0x42 (the Establishment Response reached the SMF through a retransmission of the request); a Modification Request addressed to it is answered with cause %d, SEID %#x", f.SEID, cause, seid), true
+		}
+	case "mod":
+		o := r.Step(stack.Op{Kind: "mod", Peer: 0, Sess: 0, Rules: upd(2)})
+		if o.Dead != nil {
+			return vcore.Violatef(o.Dead.Key, "modification after the lost answer: UPF fatal exit"), true
+		}
+		seen := false
+		for _, cl := range o.Calls {
+			if cl.Op == "update" && cl.Kind == "FAR" && cl.ID == 2 && cl.SEID == r.Sess[0].UP {
+				seen = true
+			}
+		}
+		if mr := modAnswer(o); mr == nil || stack.Cause(mr) != 1 || !seen {
+			return vcore.Violatef("lost-answer-untrue", "the Modification Response that reached the SMF through a retransmission said FAR 2 was created; an Update FAR 2 afterwards is not passed to the data plane (calls %s)", vcore.JSON(o.Calls)), true
+		}
+	case "del":
+		o := r.Step(stack.Op{Kind: "mod", Peer: 0, Sess: 0, Rules: upd(1)})
+		if o.Dead != nil {
+			return vcore.Violatef(o.Dead.Key, "modification after the lost answer: UPF fatal exit"), true
+		}
+		if mr := modAnswer(o); (mr != nil && stack.Cause(mr) == 1) || len(o.Calls) != 0 {
+			return vcore.Violatef("lost-answer-untrue", "the Deletion Response that reached the SMF through a retransmission said the session was deleted; a Modification Request for it afterwards is accepted or reaches the data plane (calls %s)", vcore.JSON(o.Calls)), true
 		}
 	}
 	return nil, true
